@@ -67,6 +67,39 @@ let () = register "cache" (fun args ->
           | [ "iter" ] -> call OIter false; None
           | [ "clear" ] -> call OClear true; None
           | [ "close" ] -> call OClose true; None
+          | [ "closeset"; k; c; v; cost ] ->
+              (* Close (buffer empty) during which, right after the first OnExit it delivers, another thread
+                 issues a Set *)
+              Hashtbl.replace costs (n_of_string v) (z_of_string cost);
+              let ctid = nat_of_int tid in
+              (match mstep cfg !st (LCall (ctid, OClose)) with Some s -> st := s | None -> ());
+              let exited s = List.exists (function ECb (Some t, CbExit u) -> t = ctid && u <> N0 | _ -> false)
+                  (list_take (int_of_nat (length s.s_log) - before) s.s_log) in
+              let fuel = ref 10000 and stuck = ref false in
+              while not (exited !st) && not !stuck && !fuel > 0 do
+                decr fuel;
+                (match mstep cfg !st (LStep ctid) with Some s -> st := s | None -> stuck := true)
+              done;
+              if exited !st then begin
+                let rtid = nat_of_int (2000 + tid) in
+                (match mstep cfg !st (LCall (rtid, OSet (n_of_string k, n_of_string c, n_of_string v, Z0, Z0))) with
+                 | Some s -> st := run_client cfg (nat_of_int 1000) s rtid
+                 | None -> ());
+                let okres = List.exists (function ERet (t, _, RBool true) -> t = rtid | _ -> false)
+                    (list_take (int_of_nat (length !st.s_log) - before) !st.s_log) in
+                rw := Some (Printf.sprintf "rwset:%s:%s" v (sb okres))
+              end;
+              (* Close runs on (rest of its Clear, restart of the applier) up to its final stop; with a gated item
+                 buffered the (real) applier is parked inside the Cost callback and that stop waits for a token *)
+              let at_stop s = (match (get_thread s ctid).t_pc with CClr ((ClrStop | ClsStop), _) -> true | _ -> false) in
+              let fuel = ref 10000 and stuck = ref false in
+              while thread_busy !st ctid && not (at_stop !st) && not !stuck && !fuel > 0 do
+                decr fuel;
+                (match mstep cfg !st (LStep ctid) with Some s -> st := s | None -> stuck := true)
+              done;
+              if thread_busy !st ctid then blocked := (tid, true) :: !blocked;
+              st := settle cfg (nat_of_int 1000) !st (if !st.s_buf = [] then all_blocked () else nonclear_blocked ());
+              None
           | [ "rem" ] -> call ORem false; None
           | [ "max" ] -> call OMax false; None
           | [ "updmax"; z ] -> call (OUpdMax (z_of_string z)) false; None
